@@ -32,7 +32,8 @@ received at any point, also on error and on early close, is a prefix of the requ
 if it was told that it has everything it has exactly that part.  No assumption on the digest's hash:
 this is the arithmetic of the resume offsets alone. -/
 theorem C16_exactly_once (D : Bytes) (base : Buf) (h : List Resp) (op : Op)
-    (hb : Good D base) (hh : GoodH D h) :
+    (hb : Good D base) (hh : GoodH D h)
+    (ht : (∃ off n, op = .readAt off n) → Tight base ∧ TightH h) :
     delivered (runOp base h op).result <+: window D op ∧
     (Complete (runOp base h op).result → delivered (runOp base h op).result = window D op) := by
   obtain ⟨_, w2⟩ := withEH_spec h base
@@ -42,7 +43,7 @@ theorem C16_exactly_once (D : Bytes) (base : Buf) (h : List Resp) (op : Op)
   cases wb with
   | plain b =>
     simp only [] at w2 ⊢
-    rcases w2.2 with ⟨data, rfl, hsrc, _⟩ | ⟨e, rfl, _⟩
+    rcases w2.2 with ⟨data, rfl, hsrc, _⟩ | ⟨e, rfl, _⟩ | ⟨data, suf, rfl, hsrc, _⟩
     · have hg : Good D (.bytes data) := by
         rcases hsrc with rfl | hm
         · exact hb
@@ -52,6 +53,16 @@ theorem C16_exactly_once (D : Bytes) (base : Buf) (h : List Resp) (op : Op)
     · obtain ⟨p1, p2, _⟩ := plainOp_error e op
       rw [p1]
       exact ⟨List.nil_prefix, fun hc => absurd hc p2⟩
+    · have hg : Good D (.readerAt data suf) := by
+        rcases hsrc with rfl | hm
+        · exact hb
+        · exact hh _ hm
+      simp only [Good] at hg; subst hg
+      refine plainOp_readerAt_good data suf op (fun hop => ?_)
+      obtain ⟨t1, t2⟩ := ht hop
+      rcases hsrc with rfl | hm
+      · exact t1
+      · exact t2 _ hm
   | eh b d =>
     simp only [] at w2 ⊢
     obtain ⟨_, hsrc, hcas, _, _, hmem⟩ := w2
@@ -59,7 +70,12 @@ theorem C16_exactly_once (D : Bytes) (base : Buf) (h : List Resp) (op : Op)
       rcases hsrc with rfl | hm
       · exact hb
       · exact hh _ hm
-    exact ehOp_good D b d _ op hg (IsCas.size_of_good hcas hg) (fun b' hb' => hh b' (hmem b' hb'))
+    refine ehOp_good D b d _ op hg (IsCas.size_of_good hcas hg) (fun b' hb' => hh b' (hmem b' hb')) (fun hop => ?_)
+    obtain ⟨t1, t2⟩ := ht hop
+    refine ⟨?_, fun b' hb' => t2 b' (hmem b' hb')⟩
+    rcases hsrc with rfl | hm
+    · exact t1
+    · exact t2 _ hm
 
 example :
     let D := [1, 2, 3, 4, 5]
@@ -85,7 +101,9 @@ byte slices hold `D`, which is what "validated" promises), then a consumer that 
 everything has exactly the requested part of `D`. -/
 theorem C16_validated_across_parts (d : Digest) (D : Bytes) (base : Buf) (h : List Resp) (op : Op)
     (hd : ∀ x, d.valid x = true → x.length = d.size → x = D)
-    (hb : Sealed d D base) (hh : SealedH d D h) (hc : Complete (runOp base h op).result) :
+    (hb : Sealed d D base) (hh : SealedH d D h)
+    (ht : (∃ off n, op = .readAt off n) → Tight base ∧ TightH h)
+    (hc : Complete (runOp base h op).result) :
     delivered (runOp base h op).result = window D op := by
   obtain ⟨_, w2⟩ := withEH_spec h base
   unfold runOp at hc ⊢
@@ -94,7 +112,7 @@ theorem C16_validated_across_parts (d : Digest) (D : Bytes) (base : Buf) (h : Li
   cases wb with
   | plain b =>
     simp only [] at w2 hc ⊢
-    rcases w2.2 with ⟨data, rfl, hsrc, _⟩ | ⟨e, rfl, _⟩
+    rcases w2.2 with ⟨data, rfl, hsrc, _⟩ | ⟨e, rfl, _⟩ | ⟨data, suf, rfl, hsrc, _⟩
     · have hg : Sealed d D (.bytes data) := by
         rcases hsrc with rfl | hm
         · exact hb
@@ -102,6 +120,16 @@ theorem C16_validated_across_parts (d : Digest) (D : Bytes) (base : Buf) (h : Li
       simp only [Sealed] at hg; subst hg
       exact (plainOp_bytes_good data op).2 hc
     · exact absurd hc (plainOp_error e op).2.1
+    · have hg : Sealed d D (.readerAt data suf) := by
+        rcases hsrc with rfl | hm
+        · exact hb
+        · exact hh _ hm
+      simp only [Sealed] at hg; subst hg
+      refine (plainOp_readerAt_good data suf op (fun hop => ?_)).2 hc
+      obtain ⟨t1, t2⟩ := ht hop
+      rcases hsrc with rfl | hm
+      · exact t1
+      · exact t2 _ hm
   | eh b d' =>
     simp only [] at w2 hc ⊢
     obtain ⟨_, hsrc, hcas, _, _, hmem⟩ := w2
@@ -111,7 +139,12 @@ theorem C16_validated_across_parts (d : Digest) (D : Bytes) (base : Buf) (h : Li
       · exact hh _ hm
     have hdd : d' = d := IsCas.digest_of_sealed hcas hg
     subst hdd
-    exact ehOp_sealed d' D b _ op hd hg (fun b' hb' => hh b' (hmem b' hb')) hc
+    refine ehOp_sealed d' D b _ op hd hg (fun b' hb' => hh b' (hmem b' hb')) (fun hop => ?_) hc
+    obtain ⟨t1, t2⟩ := ht hop
+    refine ⟨?_, fun b' hb' => t2 b' (hmem b' hb')⟩
+    rcases hsrc with rfl | hm
+    · exact t1
+    · exact t2 _ hm
 
 /-- Without the no-collision assumption: what a completed whole-object read delivered has the
 digest's size and checksum (stated for the streaming reader; the stitched parts are validated
@@ -166,13 +199,17 @@ theorem C16_handler_calls (base : Buf) (h : List Resp) (op : Op) :
   | plain b =>
     simp only [] at w1 w2 ⊢
     refine ⟨w2.1, w1, fun e he => ?_⟩
-    rcases w2.2 with ⟨data, rfl, _, _⟩ | ⟨e', rfl, hdec⟩
+    rcases w2.2 with ⟨data, rfl, _, _⟩ | ⟨e', rfl, hdec⟩ | ⟨data, suf, rfl, _, _⟩
     · rcases plainOp_bytes_err data op e he with hi | hw
       · exact Or.inl hi
       · exact Or.inr (Or.inl hw)
     · have := (plainOp_error e' op).2.2 e he
       subst this
       exact Or.inr (Or.inr hdec)
+    · rcases plainOp_readerAt_err data suf op e he with rfl | ⟨a, b, rfl⟩ | ⟨a, b, rfl⟩
+      · exact Or.inr (Or.inl rfl)
+      · exact Or.inl trivial
+      · exact Or.inl trivial
   | eh b d =>
     simp only [] at w1 w2 ⊢
     obtain ⟨hdn, _, _, hch, hdec, _⟩ := w2
@@ -199,7 +236,9 @@ theorem C16_handler_error_returned (base : Buf) (h : List Resp) (op : Op) (e : E
   cases wb with
   | plain b =>
     simp only [] at w2 hdec ⊢
-    rcases w2.2 with ⟨data, rfl, _, hnone⟩ | ⟨e', rfl, hsome⟩
+    rcases w2.2 with ⟨data, rfl, _, hnone⟩ | ⟨e', rfl, hsome⟩ | ⟨data, suf, rfl, _, hnone⟩
+    rotate_left 2
+    · rw [hnone] at hdec; simp at hdec
     · rw [hnone] at hdec; simp at hdec
     · rw [hsome] at hdec
       simp only [Option.some.injEq] at hdec; subst hdec
@@ -246,11 +285,12 @@ theorem C16_intact_never_rejected (D : Bytes) (base : Buf) (h : List Resp) (op :
   | plain b =>
     simp only [] at w2 wl ⊢
     refine ⟨wl, fun e he => ?_⟩
-    rcases w2.2 with ⟨data, rfl, _, _⟩ | ⟨e', rfl, hdec⟩
+    rcases w2.2 with ⟨data, rfl, _, _⟩ | ⟨e', rfl, hdec⟩ | ⟨data, suf, rfl, _, _⟩
     · exact plainOp_bytes_not_corrupt data op e he
     · have := (plainOp_error e' op).2.2 e he
       subst this
       exact decision_not_corrupt _ _ _ hdec
+    · exact plainOp_readerAt_not_corrupt data suf op e he
   | eh b d =>
     simp only [] at w2 wl ⊢
     obtain ⟨_, hsrc, hcas, _, _, hmem⟩ := w2
@@ -301,6 +341,39 @@ example :
   simp only [List.mem_cons, Resp.repl.injEq, List.mem_nil_iff, or_false] at hb
   subst hb
   exact ⟨rfl, ⟨[], rfl⟩⟩
+
+/-! ### Validated `ReaderAt` buffers as replacements -/
+
+/-- **A `ReaderAt`-backed buffer resumes at the offset and stops at the object's end.**  A buffer
+from `NewValidatedBufferFromReaderAt` over storage that continues with other bytes after the object
+(`Buf.readerAt data suffix`, any `suffix`), opened unvalidated at `off` - as a reader or as a chunk
+reader - yields exactly `data[off:]`: the section it reads has length `size - off`, not `size`.  As
+`Good`/`Sealed`/`Sound` only ask `data = D` of such a buffer, all C16 theorems cover it as base and as
+replacement with arbitrary trailing bytes; only `ReadAt`, which that buffer hands to the `ReaderAt`
+unbounded, needs the storage to end with the object (`Tight`). -/
+theorem C16_readerAt_stops_at_size (data suffix : Bytes) (off m : Nat) :
+    (openReader (.readerAt data suffix) off).rest = data.drop off ∧
+    (openChunks (.readerAt data suffix) off m).1.flatten = data.drop off ∧
+    (off ≤ data.length → (openReader (.readerAt data suffix) off).term = .eof ∧
+      (openChunks (.readerAt data suffix) off m).2 = .eof) := by
+  refine ⟨openReader_rest _ off, openChunks_flatten _ off m, fun h => ?_⟩
+  have : ¬ off > data.length := by omega
+  simp [openReader, openChunks, this, RSrc.term]
+
+example :
+    let D := [1, 2, 3]
+    let d : Digest := ⟨3, fun x => x == D⟩
+    let base := Buf.reader d [.data [1, 2], .fail 1]
+    -- the replacement's storage continues with 7, 8, 9 after the object
+    let h := [Resp.repl (.readerAt D [7, 8, 9])]
+    Sound D base ∧ SoundH D h ∧
+    (runOp base h (.reader [2, 5, 5])).result = .reads [([1, 2], .ok), ([], .ok), ([3], .eof)] ∧
+    (runOp base h (.writer none)).result = .writes [[1, 2], [3]] none := by
+  refine ⟨⟨rfl, rfl, ⟨[3], rfl⟩, fun h => by simp [scan] at h⟩, ?_, rfl, rfl⟩
+  intro b hb
+  simp only [List.mem_cons, Resp.repl.injEq, List.mem_nil_iff, or_false] at hb
+  subst hb
+  rfl
 
 /-! ### Stacked error handlers -/
 
